@@ -559,8 +559,6 @@ def correspondence(ctx):
     for tau in TIMEOUTS:
         for variant in ("arrive", "deliver", "arrive-exc", "deliver-exc"):
             depth = depth_main if variant in ("arrive", "deliver") else depth_other
-            if variant == "deliver" and ctx.tier != "thorough":
-                depth = depth_other
             sim = Sim(0)
             try:
                 head = "X" + tau_tok(tau)
@@ -639,8 +637,8 @@ def correspondence(ctx):
                 c.samples.append(dict(case="simnet %r" % (sc,), outcome=" ".join(want)))
     for k, v in kinds.items():
         c.count("observation:" + k, v)
-    c.extra["exhaustive_orders"] = ("all orders of the 9-symbol multiset of length %d (reply dispatched now, value) / %d "
-                                    "(other variants), 5 timeouts: %d sequences" % (depth_main, depth_other, n_enum))
+    c.extra["exhaustive_orders"] = ("all orders of the 9-symbol multiset of length %d (reply dispatched now / put into the "
+                                    "channel now, value) / %d (the same with an exception), 5 timeouts: %d sequences" % (depth_main, depth_other, n_enum))
     c.exhaustive = False
     return c
 
